@@ -60,6 +60,31 @@ theorem take_append_of_le {α} (l : List α) (x : α) (k : Nat) (h : k ≤ l.len
     (l ++ [x]).take k = l.take k := by
   rw [List.take_append_of_le_length h]
 
+theorem inv_handle {n : Nat} {sf : Bool} {q : Req} (r : Resp) (hi : Inv n sf q) :
+    Inv n sf { q with ctx := handleRaw false q.ctx r, handled := q.handled ++ [r] } := by
+  obtain ⟨h1, h2, h3, h4, h5, h6, h7, h8, h9⟩ := hi
+  obtain ⟨f1, f2, f3, f4, f5⟩ := handle_fields q.ctx r
+  obtain ⟨t1, t2, t3⟩ := tryClose_fields (handle false q.ctx r)
+  have hcomp : (handleRaw false q.ctx r).completed =
+      (decide ((handleRaw false q.ctx r).expect ≤ 0) || (handleRaw false q.ctx r).err) := by
+    simp only [handleRaw, tryClose_completed, t1, t2, f1, f2, f4, h4]
+    cases he : q.ctx.err <;> cases hr : r.isErr <;> by_cases hx : q.ctx.expect ≤ 0 <;>
+      by_cases hy : q.ctx.expect - 1 ≤ 0 <;> simp [hx, hy] <;> omega
+  refine ⟨?_, ?_, ?_, hcomp, ?_, h6, h7, ?_, ?_⟩
+  · simp only [handleRaw, t1, f1, h1, List.length_append, List.length_singleton]; omega
+  · simp only [handleRaw, t2, f2, h2, List.any_append, List.any_cons, List.any_nil, Bool.or_false,
+      Bool.or_assoc]
+  · simp only [handleRaw, t3, f3, h3, List.flatMap_append, List.flatMap_cons, List.flatMap_nil,
+      List.append_nil]
+  · exact tryClose_closes _ (by rw [f5, f4]; exact h5)
+  · simp only [List.length_append, List.length_singleton]; omega
+  · intro x hx
+    have := h9 x hx
+    cases x with
+    | ok vs => simpa only [RetOk, take_append_of_le _ _ _ h8] using this
+    | err => simpa only [RetOk, take_append_of_le _ _ _ h8] using this
+    | timeout => exact this
+
 theorem inv_step {n : Nat} {sf : Bool} {q q' : Req} {e : Ev} (hi : Inv n sf q)
     (h : step false q e = some q') : Inv n sf q' := by
   obtain ⟨h1, h2, h3, h4, h5, h6, h7, h8, h9⟩ := hi
@@ -70,30 +95,14 @@ theorem inv_step {n : Nat} {sf : Bool} {q q' : Req} {e : Ev} (hi : Inv n sf q)
     · injection h with h; subst h; exact ⟨h1, h2, h3, h4, h5, h6, h7, h8, h9⟩
     · split at h
       · injection h with h; subst h
-        obtain ⟨f1, f2, f3, f4, f5⟩ := handle_fields q.ctx r
-        obtain ⟨t1, t2, t3⟩ := tryClose_fields (handle false q.ctx r)
-        have hcomp : (handleRaw false q.ctx r).completed =
-            (decide ((handleRaw false q.ctx r).expect ≤ 0) || (handleRaw false q.ctx r).err) := by
-          simp only [handleRaw, tryClose_completed, t1, t2, f1, f2, f4, h4]
-          cases he : q.ctx.err <;> cases hr : r.isErr <;> by_cases hx : q.ctx.expect ≤ 0 <;>
-            by_cases hy : q.ctx.expect - 1 ≤ 0 <;> simp [hx, hy] <;> omega
-        refine ⟨?_, ?_, ?_, hcomp, ?_, h6, h7, ?_, ?_⟩
-        · simp only [handleRaw, t1, f1, h1, List.length_append, List.length_singleton]; omega
-        · simp only [handleRaw, t2, f2, h2, List.any_append, List.any_cons, List.any_nil, Bool.or_false,
-            Bool.or_assoc]
-        · simp only [handleRaw, t3, f3, h3, List.flatMap_append, List.flatMap_cons, List.flatMap_nil,
-            List.append_nil]
-        · exact tryClose_closes _ (by rw [f5, f4]; exact h5)
-        · simp only [List.length_append, List.length_singleton]; omega
-        · intro x hx
-          have := h9 x hx
-          cases x with
-          | ok vs => simpa only [RetOk, take_append_of_le _ _ _ h8] using this
-          | err => simpa only [RetOk, take_append_of_le _ _ _ h8] using this
-          | timeout => exact this
+        exact inv_handle r ⟨h1, h2, h3, h4, h5, h6, h7, h8, h9⟩
       · split at h
         · injection h with h; subst h; exact ⟨h1, h2, h3, h4, h5, h6, h7, h8, h9⟩
         · cases h
+  | inflight r =>
+    simp only [step] at h
+    injection h with h; subst h
+    exact inv_handle r ⟨h1, h2, h3, h4, h5, h6, h7, h8, h9⟩
   | deadline =>
     simp only [step] at h
     injection h with h; subst h
@@ -187,6 +196,7 @@ theorem returned_frozen_step {q q' : Req} {e : Ev} {x : Ret} (hx : q.returned = 
       · split at h
         · injection h with h; subst h; exact hx
         · cases h
+  | inflight r => simp only [step] at h; injection h with h; subst h; exact hx
   | deadline => simp only [step] at h; injection h with h; subst h; exact hx
   | wake v =>
     cases v <;> simp only [step, if_true, Bool.false_eq_true, if_false] at h <;>
